@@ -48,6 +48,7 @@ PROP = [  # (subject fragment, property ids, key that used to be reported)
  ("file header of a rename or copy kept git's quotes around a quoted path", 'C14', "c14:header-text:renamed / renamed_changed / copied (path quoted by git on the rename/copy lines shown with its quotes)"),
  ("blame line with a one-character author name was not recognised", 'C17', "c17:separator / c17:row-count (blame line whose author is a single character passed through unrendered)"),
  ("hunk header that no hunk line follows was dropped", 'C02,C14', "c02:line-count:* on a diff cut right after a hunk header ('@@ ... @@' at end of input or before 'diff'/'commit'/'@@')"),
+ ("lines differing by a zero-width character were paired at --max-line-distance 0", 'C06', "c06:distance-0-pairing / :sbs ('<U+0308>key' paired with ' key   ' at distance 0; found by the thorough tier)"),
 ]
 log = subprocess.run(['git', '-C', '/repo', 'log', '--format=%H%x09%s', '--reverse'], stdout=subprocess.PIPE).stdout.decode().splitlines()
 fixes = [l.split('\t', 1) for l in log if '\tfix:' in l]
